@@ -482,6 +482,11 @@ def run(db, chk) -> None:
     STEPS = T.P("STEPS")
 
     check_trim_guard(db, chk, "C12.R3-guard")
+    # the device rule reads index_correlation: the links are the mutual links decided for C02 (correlation id 0 included)
+    from .c02 import check_links
+    from .c09 import _Prefixed
+    check_links(db, _Prefixed(chk, "C12.R2-links"))
+    chk.floor("C12.R2-links", 6)
     check_step_set(db, chk, "C12.R3-guard")
     # ------------------------------------------------------------------ R4 end coherence + load order
     check_end_coherence(db, chk, "C12.R4-end-coherence")
